@@ -1,5 +1,343 @@
 /-
-C02 — property theorems (stub: not built yet).
+C02 — Every public entry point reports the same matches; a boolean call returns true exactly when the
+corresponding find call returns a match.
+
+Two things make the entry points of regexp2 differ internally, and the theorems below are about
+exactly these two:
+
+A. **The bool-only program.**  `MatchString`, `MatchRunes` and `FindAll*Index` execute a second
+   program (`re.quickCode`) from which `syntax/writer.go` has dropped the `Setmark`/`Capturemark` pair
+   of every capture group whose slot `captureSlotsInUse` (syntax/code.go) found unobserved.  On the
+   specification semantics (`Spec.m`, the ordered list of all successes of a pattern) dropping that
+   pair is removing the `cap g ·` constructor (`Spec.stripCaps`, Model/Quick.lean).  `quick_agrees`
+   says that this changes nothing but the capture log: same successes, same order, same positions,
+   same captures of every kept group.
+
+B. **Start position and program selection.**  Over the scan model of C03/C07 (`Model/Scan.lean`,
+   tied to `Runner.scan` by the legs of C07) `Model/Api.lean` writes each entry point as "which
+   program, first scan from where, iterated how".  `api_agree` says all of them perform the same
+   scans, given that the two programs agree on single attempts (which part A provides,
+   `spec_programs_agree`) and that the raw-string prefix filter is a sound accelerator.
+
+What is *not* a theorem here: that the interpreter executes a program according to `Spec.m` (legs of
+C01/C17 and the quick-vs-full oracle of leg A in harness/internal/legs/c02.go), captures other than
+group 0 at the API level (C08, C13), the byte/rune index conversion (C08), balancing groups (outside
+the specification's fragment; `captureSlotsInUse` keeps both of their slots).
 -/
+import RegexVerif.Lemmas.Quick
+import RegexVerif.Lemmas.Api
+
 namespace RegexVerif.Props.C02
+open RegexVerif RegexVerif.Spec RegexVerif.Scan RegexVerif.Api RegexVerif.Lemmas.Scan
+
+/-! ## A. the bool-only program -/
+
+/-- "aba" -/
+def abaEnv : Env := { text := [97, 98, 97], textstart := 0, named := [], word := [], fold := [] }
+/-- `(a)(b)\1` -/
+def abaPat : Pat := .seq (.cap 1 (.chr (.one 97 false))) (.seq (.cap 2 (.chr (.one 98 false))) (.ref 1 false))
+/-- keep group 1 only (and group 0, always) -/
+def keep1 (g : Nat) : Bool := g == 1
+
+/-- **The bool-only program agrees with the full one.**  Let `keep` select capture groups such that
+    every group the pattern reads back (`\1`, `\k<n>`, `(?(1)…)`) is selected.  Then matching the
+    pattern with the capturing effect of all other groups removed, from a state whose capture log
+    has the other groups' entries removed, yields — for every sub-pattern context, direction and
+    state — the list of successes of the original pattern with those entries removed: the same number
+    of successes in the same priority order, each at the same position and with the same captures
+    of the kept groups.  In particular the bool-only program succeeds exactly when the full one
+    does. -/
+theorem quick_agrees (e : Env) (keep : Nat → Bool) (p : Pat) (h : ∀ g ∈ refsOf p, keep g = true)
+    (rtl : Bool) (st : St) :
+    m e (stripCaps keep p) rtl (eraseCaps keep st) = (m e p rtl st).map (eraseCaps keep) :=
+  m_strip e keep p (fun g hg => kept_of_keep (h g hg)) rtl st
+
+example : (∀ g ∈ refsOf abaPat, keep1 g = true) ∧
+    stripCaps keep1 abaPat = .seq (.cap 1 (.chr (.one 97 false))) (.seq (.chr (.one 98 false)) (.ref 1 false)) ∧
+    m abaEnv abaPat false { pos := 0, caps := [] } = [{ pos := 3, caps := [(1, 0, 1), (2, 1, 1)] }] ∧
+    m abaEnv (stripCaps keep1 abaPat) false { pos := 0, caps := [] } = [{ pos := 3, caps := [(1, 0, 1)] }] :=
+  ⟨by decide, rfl, by decide, by decide⟩
+
+/-- **What erasing preserves.**  A state and its erased image have the same position, and for every
+    kept group (group 0 always is) the same last capture and the same "has captured" flag — i.e.
+    everything a later `\g`, `(?(g)…)` or the reported overall match can observe. -/
+theorem erase_observations (keep : Nat → Bool) (st : St) (g : Nat) (hg : g = 0 ∨ keep g = true) :
+    (eraseCaps keep st).pos = st.pos ∧
+    lastCap (eraseCaps keep st).caps g = lastCap st.caps g ∧
+    hasCap (eraseCaps keep st).caps g = hasCap st.caps g := by
+  have hk : kept keep g = true := by
+    rcases hg with h | h
+    · subst h; rfl
+    · exact kept_of_keep h
+  exact ⟨rfl, lastCap_filter keep st.caps g hk, hasCap_filter keep st.caps g hk⟩
+
+example : eraseCaps keep1 { pos := 3, caps := [(1, 0, 1), (2, 1, 1), (0, 0, 3)] } = { pos := 3, caps := [(1, 0, 1), (0, 0, 3)] } := by
+  decide
+
+/-- **One attempt.**  At every position the bool-only program's attempt (group 0 wrapped around the
+    stripped pattern, as the compiler does) succeeds exactly when the full program's does, ends at the
+    same position and reports the same overall match `(index, length)` — and the same last capture
+    for every other kept group. -/
+theorem quick_attempt_agrees (e : Env) (keep : Nat → Bool) (p : Pat) (h : ∀ g ∈ refsOf p, keep g = true)
+    (rtl : Bool) (i : Nat) :
+    (attempt e (stripCaps keep p) rtl i).isSome = (attempt e p rtl i).isSome ∧
+    (attempt e (stripCaps keep p) rtl i).map (fun st => (st.pos, lastCap st.caps 0)) =
+      (attempt e p rtl i).map (fun st => (st.pos, lastCap st.caps 0)) ∧
+    ∀ g, keep g = true →
+      (attempt e (stripCaps keep p) rtl i).map (fun st => lastCap st.caps g) =
+        (attempt e p rtl i).map (fun st => lastCap st.caps g) := by
+  rw [attempt_strip e keep p (fun g hg => kept_of_keep (h g hg)) rtl i]
+  cases attempt e p rtl i with
+  | none => exact ⟨rfl, rfl, fun _ _ => rfl⟩
+  | some st =>
+    refine ⟨rfl, ?_, ?_⟩
+    · simp only [Option.map_some, eraseCaps_pos, eraseCaps_caps, lastCap_filter keep st.caps 0 (kept_zero keep)]
+    · intro g hg
+      simp only [Option.map_some, eraseCaps_caps, lastCap_filter keep st.caps g (kept_of_keep hg)]
+
+example : attempt abaEnv abaPat false 0 = some { pos := 3, caps := [(1, 0, 1), (2, 1, 1), (0, 0, 3)] } ∧
+    attempt abaEnv (stripCaps keep1 abaPat) false 0 = some { pos := 3, caps := [(1, 0, 1), (0, 0, 3)] } ∧
+    attempt abaEnv abaPat false 1 = none ∧ attempt abaEnv (stripCaps keep1 abaPat) false 1 = none :=
+  ⟨by decide, by decide, by decide, by decide⟩
+
+/-- **A whole search.**  `find` (the attempt at the first position in scan order where one succeeds)
+    of the bool-only program is `find` of the full program with the unkept captures erased: both
+    succeed or both fail, at the same attempt position, with the same end position and the same
+    overall match. -/
+theorem quick_find_agrees (e : Env) (keep : Nat → Bool) (p : Pat) (h : ∀ g ∈ refsOf p, keep g = true)
+    (rtl : Bool) (start : Nat) :
+    find e (stripCaps keep p) rtl start = (find e p rtl start).map (eraseCaps keep) ∧
+    (find e (stripCaps keep p) rtl start).isSome = (find e p rtl start).isSome ∧
+    (find e (stripCaps keep p) rtl start).map (fun st => (st.pos, lastCap st.caps 0)) =
+      (find e p rtl start).map (fun st => (st.pos, lastCap st.caps 0)) := by
+  have hf := find_strip e keep p (fun g hg => kept_of_keep (h g hg)) rtl start
+  refine ⟨hf, ?_, ?_⟩
+  · rw [hf]; cases find e p rtl start <;> rfl
+  · rw [hf]
+    cases find e p rtl start with
+    | none => rfl
+    | some st =>
+      simp only [Option.map_some, eraseCaps_pos, eraseCaps_caps, lastCap_filter keep st.caps 0 (kept_zero keep)]
+
+/-- "xaba": the search skips position 0 -/
+def xabaEnv : Env := { abaEnv with text := [120, 97, 98, 97] }
+
+example : find xabaEnv abaPat false 0 = some { pos := 4, caps := [(1, 1, 1), (2, 2, 1), (0, 1, 3)] } ∧
+    find xabaEnv (stripCaps keep1 abaPat) false 0 = some { pos := 4, caps := [(1, 1, 1), (0, 1, 3)] } ∧
+    find xabaEnv abaPat true 4 = none ∧ find xabaEnv (stripCaps keep1 abaPat) true 4 = none :=
+  ⟨by decide, by decide, by decide, by decide⟩
+
+/-- **`captureSlotsInUse` selects enough.**  The slots the compiler keeps for the bool-only program —
+    slot 0 and every slot named by a `Ref` or `Testref` instruction (balancing groups, whose slots it
+    also keeps, are outside the specification's fragment) — contain every group the pattern reads
+    back; hence the program `Write` generates from them (`quickPat`) agrees with the full program in
+    the sense of `quick_agrees`, for every pattern. -/
+theorem slotsInUse_sound (e : Env) (p : Pat) :
+    (∀ g ∈ refsOf p, inUse (slotsInUse p) g = true) ∧
+    ∀ (rtl : Bool) (st : St),
+      m e (quickPat p) rtl (eraseCaps (inUse (slotsInUse p)) st) = (m e p rtl st).map (eraseCaps (inUse (slotsInUse p))) := by
+  have h : ∀ g ∈ refsOf p, inUse (slotsInUse p) g = true := by
+    intro g hg; simp [inUse, slotsInUse, hg]
+  exact ⟨h, fun rtl st => quick_agrees e _ p h rtl st⟩
+
+example : slotsInUse abaPat = [0, 1] ∧ hasQuick abaPat = true ∧ quickPat abaPat = stripCaps keep1 abaPat :=
+  ⟨by decide, by decide, rfl⟩
+
+/-- **The hypothesis is needed**: stripping a group that IS read back changes the result.
+    `(a)(b)\1` on "aba" matches; with group 1 stripped the back-reference has nothing to compare with
+    and the pattern fails. -/
+theorem referenced_group_needed :
+    (find abaEnv abaPat false 0).isSome = true ∧
+    (find abaEnv (stripCaps (fun _ => false) abaPat) false 0).isSome = false := by decide
+
+/-- **No second program, no difference**: when every capturing group of the pattern is in use,
+    `Write` emits no bool-only program (`slices.Contains(code.CaptureSlotInUse, false)` is false) and
+    the stripped pattern is the pattern itself. -/
+theorem no_quick_program (p : Pat) (h : hasQuick p = false) : quickPat p = p := by
+  apply stripCaps_id
+  intro g hg
+  apply kept_of_keep
+  unfold hasQuick at h
+  rw [List.any_eq_false] at h
+  have := h g hg
+  simpa using this
+
+example : hasQuick (.seq (.cap 1 (.chr (.one 97 false))) (.ref 1 false)) = false := by decide
+
+/-! ## B. the entry points over one scan -/
+
+/-- **Part A feeds part B**: the specification of a pattern and of its bool-only program, taken as
+    engines without accelerators, satisfy `Programs.Agree` — both are well-shaped and they report
+    the same overall span at every position for every `\G` origin.  A pattern without `\G` is
+    `OriginFree`. -/
+theorem spec_programs_agree (e : Env) (p : Pat) (rtl : Bool) :
+    (specPrograms e p rtl).Agree rtl e.n ∧
+    (usesStart p = false → OriginFree (specPrograms e p rtl).full e.n) :=
+  ⟨specPrograms_agree e p rtl, fun h => specEngine_originFree e p rtl h⟩
+
+/-- the two programs of `(a)(b)\1` on "xaba", and a prefix filter that proposes position 1 -/
+def xabaPrograms : Programs := specPrograms xabaEnv abaPat false
+def xabaFilter : Nat → Option Nat := fun _ => some 1
+
+theorem xaba_filter_sound : FilterSound (xabaPrograms.full.attempt 0) 4 xabaFilter := by
+  constructor
+  · intro h; simp [xabaFilter] at h
+  · intro c hc p hp _
+    simp only [xabaFilter, Option.some.injEq] at hc
+    have : p = 0 := by omega
+    subst this; decide
+
+/-- **A boolean call returns true exactly when the find call returns a match** (rune input):
+    `MatchRunes` runs the bool-only program, `FindRunesMatch` the full one, both from the beginning
+    in scan direction. -/
+theorem matchRunes_iff_find (P : Programs) (rtl : Bool) (n : Nat) (hP : P.Agree rtl n) :
+    matchRunes P rtl n = (findRunesMatch P rtl n).isSome := by
+  unfold matchRunes findRunesMatch
+  rw [firstMatch_congr P rtl n hP]
+
+/-- **`FindStringMatch` finds what `FindRunesMatch` finds** (up to the byte/rune conversion of C08):
+    right-to-left the filter is not consulted; left-to-right, for a pattern without `\G` and a sound
+    filter, restarting the search at the filter's candidate — which also moves the `\G` origin
+    there — returns the same match, and the filter's "no" is returned only when there is none. -/
+theorem findStringMatch_eq (P : Programs) (filter : Nat → Option Nat) (rtl : Bool) (n : Nat) (hP : P.Agree rtl n)
+    (hO : rtl = false → OriginFree P.full n) (hF : rtl = false → FilterSound (P.full.attempt 0) n filter) :
+    findStringMatch P filter rtl n = findRunesMatch P rtl n := by
+  unfold findStringMatch findRunesMatch
+  cases rtl with
+  | true => rw [stringStart_rtl]; rfl
+  | false => exact stringStart_scan P.full n hP.full (hO rfl) filter (hF rfl)
+
+/-- **`MatchString` answers what `MatchRunes` answers**, hence (previous two theorems) true exactly
+    when `FindStringMatch` returns a match. -/
+theorem matchString_eq (P : Programs) (filter : Nat → Option Nat) (rtl : Bool) (n : Nat) (hP : P.Agree rtl n)
+    (hO : rtl = false → OriginFree P.full n) (hF : rtl = false → FilterSound (P.full.attempt 0) n filter) :
+    matchString P filter rtl n = matchRunes P rtl n ∧
+    matchString P filter rtl n = (findStringMatch P filter rtl n).isSome := by
+  have h1 : matchString P filter rtl n = (findStringMatch P filter rtl n).isSome := by
+    unfold matchString findStringMatch
+    cases hs : stringStart filter rtl n with
+    | none => rfl
+    | some c =>
+      have hc : c ≤ n := by
+        unfold stringStart at hs
+        cases rtl with
+        | true => simp at hs; omega
+        | false =>
+          simp only [Bool.false_eq_true, if_false] at hs
+          cases hf : filter 0 with
+          | none => simp [hf] at hs
+          | some c' =>
+            simp only [hf, Option.map_some, Option.some.injEq] at hs
+            rw [← hs]; unfold clampStart; split <;> omega
+      simp only
+      rw [scanAt_congr P.quick P.full rtl n hP.quick hP.full c (-1) hc (fun p hp => hP.same c p hc hp)]
+  refine ⟨?_, h1⟩
+  rw [h1, findStringMatch_eq P filter rtl n hP hO hF, matchRunes_iff_find P rtl n hP]
+
+/-- **The find-all calls enumerate the `FindNextMatch` sequence of the full program.**
+    `FindAllRunesIndex(r, k)` — which runs the bool-only program — returns the sequence
+    `FindRunesMatch, FindNextMatch, …` of the full program minus the empty matches adjacent to the
+    previous match, truncated to `k`, `nil` when empty (the rule of C07, `findAllSpec`);
+    `FindAllStringIndex(s, k)` returns the same list (up to the byte mapping of C08). -/
+theorem findAll_eq (P : Programs) (filter : Nat → Option Nat) (rtl : Bool) (n : Nat) (k : Int) (hP : P.Agree rtl n)
+    (hO : rtl = false → OriginFree P.full n) (hF : rtl = false → FilterSound (P.full.attempt 0) n filter) :
+    findAllRunes P rtl n k = findAllSpec rtl k (iterate P.full rtl n) ∧
+    findAllString P filter rtl n k = findAllRunes P rtl n k := by
+  constructor
+  · unfold findAllRunes
+    rw [findAll_eq_spec, iterate_congr P rtl n hP]   -- `Props.C07.findAll_eq`
+  · unfold findAllString findAllRunes findAll
+    by_cases hk : k = 0
+    · simp [hk]
+    · simp only [hk, if_false]
+      -- the first scan of the loop is the scan of `findStringMatch`/`findRunesMatch` on the bool-only program
+      have hQO : rtl = false → OriginFree P.quick n := by
+        intro hr ts ts' p h1 h2 h3
+        rw [hP.same ts p h1 h3, hP.same ts' p h2 h3]; exact hO hr ts ts' p h1 h2 h3
+      have hQF : rtl = false → FilterSound (P.quick.attempt 0) n filter := by
+        intro hr
+        have := hF hr
+        exact ⟨fun h p hp => by rw [hP.same 0 p (Nat.zero_le n) hp]; exact this.1 h p hp,
+          fun c h p hpc hp => by rw [hP.same 0 p (Nat.zero_le n) hp]; exact this.2 c h p hpc hp⟩
+      have hfirst : (match stringStart filter rtl n with
+          | none => none
+          | some c => scanAt P.quick rtl n c (-1)) = scanAt P.quick rtl n (firstStart rtl n) (-1) := by
+        cases rtl with
+        | true => rw [stringStart_rtl]
+        | false => exact stringStart_scan P.quick n hP.quick (hQO rfl) filter (hQF rfl)
+      have hloop : ∀ c, scanAt P.quick rtl n c (-1) = scanAt P.quick rtl n (firstStart rtl n) (-1) →
+          findAllLoop P.quick rtl n (n + 2) c (-1) (-1) k = findAllLoop P.quick rtl n (n + 2) (firstStart rtl n) (-1) (-1) k := by
+        intro c hc
+        simp only [findAllLoop, hc]
+      cases hs : stringStart filter rtl n with
+      | none =>
+        rw [hs] at hfirst
+        simp only [findAllLoop, hk, if_false, ← hfirst]
+        rfl
+      | some c =>
+        rw [hs] at hfirst
+        simp only [hloop c hfirst]
+
+/-- **The enumeration inside `Replace`, `ReplaceFunc`, `Split` and the adapter is the same sequence.**
+    The three drivers of replace.go substitute the first `count` matches (`count < 0`: all) of the
+    sequence `FindRunesMatch, FindNextMatch, …`; `Split` and the adapter's `forEachStringMatch`, which
+    start from `FindStringMatch`, walk that same sequence. -/
+theorem replaceEnum_eq (P : Programs) (filter : Nat → Option Nat) (rtl : Bool) (n : Nat) (count : Int) (hP : P.Agree rtl n)
+    (hO : rtl = false → OriginFree P.full n) (hF : rtl = false → FilterSound (P.full.attempt 0) n filter) :
+    replaceEnum P rtl n count = takeK count (iterate P.full rtl n) ∧
+    enumString P filter rtl n = iterate P.full rtl n := by
+  constructor
+  · unfold replaceEnum iterate
+    by_cases hc : count = 0
+    · simp [hc, takeK_zero]
+    · simp only [hc, if_false]
+      exact replaceLoop_eq P.full rtl n _ _ count hc
+  · unfold enumString iterate
+    rw [findStringMatch_eq P filter rtl n hP hO hF]
+    rfl
+
+/-- **All entry points agree** (the statements above, together). -/
+theorem api_agree (P : Programs) (filter : Nat → Option Nat) (rtl : Bool) (n : Nat) (hP : P.Agree rtl n)
+    (hO : rtl = false → OriginFree P.full n) (hF : rtl = false → FilterSound (P.full.attempt 0) n filter) :
+    matchRunes P rtl n = (findRunesMatch P rtl n).isSome ∧
+    matchString P filter rtl n = matchRunes P rtl n ∧
+    findStringMatch P filter rtl n = findRunesMatch P rtl n ∧
+    (∀ k, findAllRunes P rtl n k = findAllSpec rtl k (iterate P.full rtl n)) ∧
+    (∀ k, findAllString P filter rtl n k = findAllRunes P rtl n k) ∧
+    (∀ count, replaceEnum P rtl n count = takeK count (iterate P.full rtl n)) ∧
+    enumString P filter rtl n = iterate P.full rtl n :=
+  ⟨matchRunes_iff_find P rtl n hP, (matchString_eq P filter rtl n hP hO hF).1,
+    findStringMatch_eq P filter rtl n hP hO hF,
+    fun k => (findAll_eq P filter rtl n k hP hO hF).1, fun k => (findAll_eq P filter rtl n k hP hO hF).2,
+    fun c => (replaceEnum_eq P filter rtl n c hP hO hF).1, (replaceEnum_eq P filter rtl n 1 hP hO hF).2⟩
+
+-- the hypotheses are satisfiable by a non-trivial instance: `(a)(b)\1` on "xaba" with its bool-only
+-- program `(a)b\1` and a filter that skips position 0 …
+example : xabaPrograms.Agree false 4 ∧ OriginFree xabaPrograms.full 4 ∧ FilterSound (xabaPrograms.full.attempt 0) 4 xabaFilter :=
+  ⟨specPrograms_agree xabaEnv abaPat false, specEngine_originFree xabaEnv abaPat false (by decide), xaba_filter_sound⟩
+-- … and every entry point reports the match "aba" at 1
+example : findRunesMatch xabaPrograms false 4 = some ⟨1, 3, 4⟩ ∧ findStringMatch xabaPrograms xabaFilter false 4 = some ⟨1, 3, 4⟩ ∧
+    matchRunes xabaPrograms false 4 = true ∧ matchString xabaPrograms xabaFilter false 4 = true :=
+  ⟨by decide, by decide, by decide, by decide⟩
+example : findAllRunes xabaPrograms false 4 (-1) = some [(1, 4)] ∧ findAllString xabaPrograms xabaFilter false 4 (-1) = some [(1, 4)] ∧
+    replaceEnum xabaPrograms false 4 (-1) = [⟨1, 3, 4⟩] ∧ enumString xabaPrograms xabaFilter false 4 = [⟨1, 3, 4⟩] :=
+  ⟨by decide, by decide, by decide, by decide⟩
+-- an unsound filter (it proposes position 2, beyond the match) makes the string calls miss the match:
+-- `FilterSound` is needed
+example : findStringMatch xabaPrograms (fun _ => some 2) false 4 = none ∧ matchString xabaPrograms (fun _ => some 2) false 4 = false :=
+  ⟨by decide, by decide⟩
+-- and so is `OriginFree`: `(?<=\Ga)b` on "ab" matches "b" at 1 when `\G` is bound to 0; position 0
+-- fails, so a filter proposing candidate 1 is sound — but restarting there rebinds `\G` to 1 and the
+-- match is lost.  /repo therefore builds no filter for patterns that use `\G` (`Code.UsesStartAnchor`).
+def gPat : Pat := .seq (.look true false (.seq (.anchor .start) (.chr (.one 97 false)))) (.chr (.one 98 false))
+def gPrograms : Programs := specPrograms { abaEnv with text := [97, 98] } gPat false
+
+example : gPrograms.Agree false 2 ∧ FilterSound (gPrograms.full.attempt 0) 2 (fun _ => some 1) ∧
+    findRunesMatch gPrograms false 2 = some ⟨1, 1, 2⟩ ∧ findStringMatch gPrograms (fun _ => some 1) false 2 = none := by
+  refine ⟨specPrograms_agree _ gPat false, ⟨fun h => by simp at h, ?_⟩, by decide, by decide⟩
+  intro c hc p hp _
+  simp only [Option.some.injEq] at hc
+  have : p = 0 := by omega
+  subst this; decide
+
 end RegexVerif.Props.C02
